@@ -11,6 +11,7 @@ import (
 	"strings"
 	"sync"
 
+	slug "github.com/hashicorp/go-slug"
 	"github.com/hashicorp/go-slug/sourcebundle"
 	"github.com/hashicorp/go-slug/verifshim/vsync"
 
@@ -308,6 +309,7 @@ func schedBuildHandler(raw json.RawMessage) (any, error) {
 // C16: concurrent Pack calls
 
 type SchedPackArg struct {
+	Share    bool       `json:"share"`    // all threads use ONE *Packer (options of step 0)
 	Steps    []PackStep `json:"steps"`    // one per thread
 	Expected []string   `json:"expected"` // solo outputs (from fresh processes)
 	Bound    int        `json:"bound"`
@@ -325,12 +327,16 @@ func schedPackHandler(raw json.RawMessage) (any, error) {
 	run := func(choices []int) (vsync.Result, string, string) {
 		outs := make([]string, len(arg.Steps))
 		var fns []func()
+		var shared *slug.Packer
+		if arg.Share {
+			shared = newPackerFor(arg.Steps[0])
+		}
 		for i, stp := range arg.Steps {
 			i, stp := i, stp
 			W := filepath.Join(base, fmt.Sprintf("t%d", i), "W")
 			os.MkdirAll(W, 0777)
 			prepPackStep(W, stp)
-			fns = append(fns, func() { outs[i] = packOnly(W, stp) })
+			fns = append(fns, func() { outs[i] = packWith(shared, W, stp) })
 		}
 		res := vsync.Run(fns, choices)
 		viol := ""
@@ -360,6 +366,7 @@ func schedPackHandler(raw json.RawMessage) (any, error) {
 // free-running bodies for the auxiliary -race pass
 
 type RaceArg struct {
+	Share bool       `json:"share,omitempty"`
 	Kind  string     `json:"kind"` // pack | build
 	Steps []PackStep `json:"steps,omitempty"`
 	World World      `json:"world,omitempty"`
@@ -378,12 +385,16 @@ func raceHandler(raw json.RawMessage) (any, error) {
 		var wg sync.WaitGroup
 		switch arg.Kind {
 		case "pack":
+			var shared *slug.Packer
+			if arg.Share {
+				shared = newPackerFor(arg.Steps[0])
+			}
 			for i, stp := range arg.Steps {
 				W := filepath.Join(base, fmt.Sprintf("t%d", i), "W")
 				os.MkdirAll(W, 0777)
 				prepPackStep(W, stp)
 				wg.Add(1)
-				go func(W string, stp PackStep) { defer wg.Done(); packOnly(W, stp) }(W, stp)
+				go func(W string, stp PackStep) { defer wg.Done(); packWith(shared, W, stp) }(W, stp)
 			}
 		case "build":
 			target := filepath.Join(base, fmt.Sprintf("b%d", it), "target")
